@@ -42,6 +42,8 @@ fn run(a: &[&str]) -> String {
         // ---- BigUint arithmetic
         "uadd" => fu(&(&pu(a[1]) + &pu(a[2]))),
         "uadd_vv" => fu(&(pu(a[1]) + pu(a[2]))),
+        "uadd_vr" => fu(&(pu(a[1]) + &pu(a[2]))),
+        "usub_u128" => fu(&(pu(a[1]) - u128::from_str_radix(a[2], 16).unwrap())),
         "uadd_assign" => { let mut x = pu(a[1]); x += &pu(a[2]); fu(&x) }
         "uadd_u32" => fu(&(pu(a[1]) + (pu64(a[2]) as u32))),
         "uadd_u64" => fu(&(pu(a[1]) + pu64(a[2]))),
